@@ -11,39 +11,43 @@ C01 — Accepted values always satisfy the parameter's declared constraints.
    particular a boundary value is accepted exactly when that side is inclusive,
    and NaN is never inside a hard bound."
 
-`validate` (Validate/Model.lean) is the code, check by check; `Sat`
-(Validate/Spec.lean) is the declarative membership predicate; `WF` restricts
-Range declarations to those a constructor accepts (`ill_formed_range_not_constructed`
-shows the others do not survive their constructor).  (Earlier rounds carried
-exclusions for five deviations of the code; they were repaired in /repo and the
-exclusions are gone.)
+`validate` (Validate/Model.lean) is the code, check by check; `setter` is the part
+of `Parameter.__set__` around it (`set_hook`, `_validate`, the constant / read-only
+guard, the store); `Sat` (Validate/Spec.lean) is the declarative membership
+predicate, `Admitted` adds "the hook's output is what counts" and the constant /
+read-only permission; `WF` restricts declarations to those a constructor accepts
+(`ill_formed_not_constructed` shows the others do not survive their constructor).
 
 What is proved here and what is only checked by the harness (harness/props/c01.py,
-differential against the real `param`, 5 routes, small-scope grids):
+differential against the real `param`, 6 routes, small-scope grids):
 * proved: per type, `_validate` accepts exactly the values that satisfy the
-  declared constraints and otherwise raises ValueError/TypeError; the boundary and
-  NaN corollaries; the constructor succeeds exactly when the default satisfies the
-  declaration, with the slots it installs (`allow_None` rule, Tuple length in
-  force, Magnitude bounds, Selector auto default / `check_on_set`).
+  declared constraints and otherwise raises ValueError/TypeError (including the
+  type checks of `step` and of a Range's soft bounds, which make an ill-typed
+  declaration unconstructible); the boundary and NaN corollaries; the setter
+  validates the *output* of `set_hook` and stores that; a constant parameter is
+  validated on every route that may set it, and refused elsewhere; the
+  constructor succeeds exactly when the default satisfies the declaration, with
+  the slots it installs (`allow_None` rule, Tuple length in force, Magnitude
+  bounds, Selector auto default / `check_on_set`, `constant or readonly`).
 * routes: the model gives each route what differs *before* `Parameter.__set__`
-  (deserialisation maps the JSON value through `deserialize`; the class-attribute
-  route stores in the class default, the others in the instance) and then shares
-  one "validate, then store".  That the four direct routes of the real library all
-  funnel into that one setter, and that the setter validates before it stores, is
-  NOT proved here: it is observed by the harness on every case (and the order of
-  operations inside `__set__` is modelled in C02).  Date-typed deserialisation
-  (`strptime`) is outside the model (C15).
-* harness only: that the Lean `validate` is the Python `_validate` (correspondence
-  on the explored cases); that every constructor argument reaches its slot on the
-  real object (slots read back from the real Parameter and compared -- `declaredCfg`
-  and `baseCfg` are two transcriptions of the same documentation, so
+  (deserialisation maps the JSON value through `deserialize`), where the setter is
+  called from (class level, uninitialised instance, initialised instance) and where
+  the value lands, and then shares one setter.  That the six routes of the real
+  library all funnel into that one setter is NOT proved here: it is observed by the
+  harness on every case.  Date-typed deserialisation (`strptime`) is outside the
+  model (C15).  References are C02 / C08.
+* harness only: that the Lean `validate` / `setter` are the Python ones
+  (correspondence on the explored cases); that every constructor argument reaches its
+  slot on the real object (slots read back from the real Parameter and compared --
+  `declaredCfg` and `baseCfg` are two transcriptions of the same documentation, so
   `ctor_arg_effective` ties only the `allow_None` rule and the length rule
   independently); "constraints in force at that moment" when they change after the
   declaration: a held container mutated in place and assigned back (aliasing
   stream) and `Selector.objects` edited after the declaration (objects stream);
   mutation of other slots (`p.bounds = …`) is not exercised; regexes
-  (`re.match` is an oracle bit); `inclusive_bounds` are booleans (the code tests
-  `is True`).
+  (`re.match` is an oracle bit); the identity test of the constant guard (`val is
+  held`) is an observed bit; hooks are the four of `Hook`; `inclusive_bounds` are
+  booleans (the code tests `is True`).
 
 Only property theorems and their non-vacuity examples live here; helper lemmas
 are in Validate/Lemmas.lean.
@@ -62,11 +66,11 @@ theorem validate_ok_iff_sat (c : Cfg) (x : Ctx) (v : PyVal) (hwf : WF c) :
   cases h : c.ptype with
   | string => exact string_iff c x v h
   | bytes => exact bytes_iff c x v h
-  | number => exact number_iff c x v h
-  | integer => exact integer_iff c x v h
-  | magnitude => exact magnitude_iff c x v h
-  | date => exact date_iff c x v h
-  | calendarDate => exact calendarDate_iff c x v h
+  | number => exact number_iff c x v h hwf
+  | integer => exact integer_iff c x v h hwf
+  | magnitude => exact magnitude_iff c x v h hwf
+  | date => exact date_iff c x v h hwf
+  | calendarDate => exact calendarDate_iff c x v h hwf
   | boolean => unfold validate Sat; simp only [h]; exact boolean_core c v
   | event => unfold validate Sat; simp only [h]; exact boolean_core c v
   | tuple => exact tuple_iff c x v h
@@ -108,11 +112,21 @@ theorem validate_err_kind (c : Cfg) (x : Ctx) (v : PyVal) (e : ErrKind) (hwf : W
   cases hp : c.ptype <;> simp only
   case string => exact noOther_seq (noOther_stringValue c v) (fun _ => noOther_regexCheck c x v)
   case bytes => exact noOther_seq (noOther_bytesValue c v) (fun _ => noOther_regexCheck c x v)
-  case number => exact noOther_seq (noOther_numberValue c v) (fun _ => noOther_numberBounds _ _ _ _)
-  case magnitude => exact noOther_seq (noOther_numberValue c v) (fun _ => noOther_numberBounds _ _ _ _)
-  case integer => exact noOther_seq (noOther_integerValue c v) (fun _ => noOther_numberBounds _ _ _ _)
-  case date => exact noOther_seq (noOther_dateValue c v) (fun _ => noOther_numberBounds _ _ _ _)
-  case calendarDate => exact noOther_seq (noOther_calendarDateValue c v) (fun _ => noOther_numberBounds _ _ _ _)
+  case number =>
+    exact noOther_seq (noOther_numberValue c v)
+      (fun _ => noOther_seq (noOther_numberStep c) (fun _ => noOther_numberBounds _ _ _ _))
+  case magnitude =>
+    exact noOther_seq (noOther_numberValue c v)
+      (fun _ => noOther_seq (noOther_numberStep c) (fun _ => noOther_numberBounds _ _ _ _))
+  case integer =>
+    exact noOther_seq (noOther_integerValue c v)
+      (fun _ => noOther_seq (noOther_numberStep c) (fun _ => noOther_numberBounds _ _ _ _))
+  case date =>
+    exact noOther_seq (noOther_dateValue c v)
+      (fun _ => noOther_seq (noOther_numberStep c) (fun _ => noOther_numberBounds _ _ _ _))
+  case calendarDate =>
+    exact noOther_seq (noOther_calendarDateValue c v)
+      (fun _ => noOther_seq (noOther_numberStep c) (fun _ => noOther_numberBounds _ _ _ _))
   case boolean => exact noOther_booleanValue c v
   case event => exact noOther_booleanValue c v
   case tuple => exact noOther_seq (noOther_tupleValue c v) (fun _ => noOther_tupleLength c v)
@@ -160,21 +174,21 @@ example :
 /-- A value sitting exactly on the lower hard bound (the upper side being
 satisfied) is accepted exactly when the lower side is inclusive. -/
 theorem boundary_accepted_iff_inclusive_lower (c : Cfg) (x : Ctx) (k k' : NumKind) (q : Rat)
-    (hi : Option PyVal) (h : NumberLike c (.num k (.fin q)))
+    (hi : Option PyVal) (h : NumberLike c (.num k (.fin q))) (hwf : WF c)
     (hb : c.bounds = some (some (.num k' (.fin q)), hi))
     (hup : BelowOpt c.incl.2 (.num k (.fin q)) hi) :
     validate c x (.num k (.fin q)) = .ok () ↔ c.incl.1 = true := by
-  rw [numberLike_iff c x k _ h, hb]
+  rw [numberLike_iff c x k _ h hwf, hb]
   simp only [InBounds, hup, and_true, AboveOpt, Above]
   cases c.incl.1 <;> simp [PyVal.le?, PyVal.lt?, ExtRat.le, ExtRat.lt, Rat.lt_irrefl]
 
 /-- … and symmetrically on the upper hard bound. -/
 theorem boundary_accepted_iff_inclusive_upper (c : Cfg) (x : Ctx) (k k' : NumKind) (q : Rat)
-    (lo : Option PyVal) (h : NumberLike c (.num k (.fin q)))
+    (lo : Option PyVal) (h : NumberLike c (.num k (.fin q))) (hwf : WF c)
     (hb : c.bounds = some (lo, some (.num k' (.fin q))))
     (hlow : AboveOpt c.incl.1 lo (.num k (.fin q))) :
     validate c x (.num k (.fin q)) = .ok () ↔ c.incl.2 = true := by
-  rw [numberLike_iff c x k _ h, hb]
+  rw [numberLike_iff c x k _ h hwf, hb]
   simp only [InBounds, hlow, true_and, BelowOpt, Below]
   cases c.incl.2 <;> simp [PyVal.le?, PyVal.lt?, ExtRat.le, ExtRat.lt, Rat.lt_irrefl]
 
@@ -211,15 +225,21 @@ theorem boundary_range_lower (c : Cfg) (x : Ctx) (k k' k'' : NumKind) (q : Rat) 
 the Number family rejects it, with a ValueError. -/
 theorem nan_never_within_bounds (c : Cfg) (x : Ctx) (k : NumKind) (lo hi : Option PyVal)
     (hp : c.ptype = .number ∨ c.ptype = .magnitude ∨ c.ptype = .integer)
-    (hb : c.bounds = some (lo, hi)) (hside : lo.isSome = true ∨ hi.isSome = true)
+    (hwf : WF c) (hb : c.bounds = some (lo, hi)) (hside : lo.isSome = true ∨ hi.isSome = true)
     (hnum : BoundsOfType PyVal.isNumber c.bounds) :
     validate c x (.num k .nan) = .error .valueError ∧ ¬ Sat c x (.num k .nan) := by
+  have hs : numberStep c = .ok () := by
+    apply numberStep_of_wf c hwf
+    rcases hp with hp | hp | hp
+    · exact Or.inl hp
+    · exact Or.inr (Or.inl hp)
+    · exact Or.inr (Or.inr (Or.inl hp))
   rw [hb] at hnum
   have hbn := numberBounds_nan c.allowNone k lo hi c.incl hside hnum
   have hin := nan_not_inBounds k lo hi c.incl hside hnum
   constructor
   · unfold validate
-    rcases hp with hp | hp | hp <;> simp only [hp, hb, hbn]
+    rcases hp with hp | hp | hp <;> simp only [hp, hb, hbn, hs, ok_seq]
     · cases hn : c.allowNone <;> simp [numberValue, PyVal.isNone, PyVal.isCallable, PyVal.isNumber, seq, valueErr]
     · cases hn : c.allowNone <;> simp [numberValue, PyVal.isNone, PyVal.isCallable, PyVal.isNumber, seq, valueErr]
     · cases k <;> cases hn : c.allowNone <;>
@@ -232,9 +252,9 @@ theorem nan_never_within_bounds (c : Cfg) (x : Ctx) (k : NumKind) (lo hi : Optio
 /-- non-vacuity: `Number(bounds=(None, inf))` -/
 example :
     let c : Cfg := { ptype := .number, bounds := some (none, some (.num .float .pinf)) }
-    (c.ptype = .number ∨ c.ptype = .magnitude ∨ c.ptype = .integer) ∧
+    (c.ptype = .number ∨ c.ptype = .magnitude ∨ c.ptype = .integer) ∧ WF c ∧
       BoundsOfType PyVal.isNumber c.bounds ∧ validate c {} (.num .float .nan) = .error .valueError := by
-  refine ⟨by decide, by decide, rfl⟩
+  refine ⟨by decide, by decide, by decide, rfl⟩
 
 /-- A Range with a hard bound on some side never admits a pair with a NaN end. -/
 theorem nan_never_within_range_bounds (c : Cfg) (x : Ctx) (a b : PyVal) (lo hi : Option PyVal)
@@ -263,83 +283,159 @@ example :
     let c : Cfg := { ptype := .range, length := 2, bounds := some (some (.num .int (.fin 0)), none) }
     WF c ∧ (PyVal.num .float .nan).isNanNum = true := by decide
 
-/-! ## what an assignment installs; the routes -/
+/-! ## what an assignment installs; the routes; `set_hook`; constant / read-only -/
 
-/-- The four direct routes (constructor keyword, instance attribute, `param.update`,
-class attribute) hand the value to the setter unchanged: the assignment succeeds
-exactly when the value satisfies the declared constraints, otherwise it raises
-ValueError / TypeError; they differ in where the value lands. -/
-theorem assign_accepted_iff_sat (r : Route) (c : Cfg) (x : Ctx) (v : PyVal) (hr : r ≠ .deser) (hwf : WF c) :
-    ((assign r c x v).accepted = true ↔ Sat c x v) ∧
-    (∀ e, assign r c x v = .rejected e → e = .valueError ∨ e = .typeError) ∧
-    assign r c x v ≠ .notModelled := by
+/-- The five direct routes (constructor keyword, instance attribute, `param.update`,
+class attribute, class-level `param.update`) hand the value to the setter
+unchanged.  The assignment succeeds exactly when it is `Admitted`: what the
+parameter would hold -- the `set_hook`'s output for the Number family -- satisfies
+the declared constraints, and the constant / read-only declaration permits an
+assignment from where the route calls the setter.  Otherwise it raises
+ValueError / TypeError. -/
+theorem assign_accepted_iff_admitted (r : Route) (c : Cfg) (x : Ctx) (same : Bool) (v : PyVal)
+    (hr : r ≠ .deser) (hwf : WF c) :
+    ((assign r c x same v).accepted = true ↔ Admitted c x (r.situation same) v) ∧
+    (∀ e, assign r c x same v = .rejected e → e = .valueError ∨ e = .typeError) ∧
+    assign r c x same v ≠ .notModelled := by
   have hrv : routeValue r c v = some v := by cases r <;> simp_all [routeValue]
-  rcases assign_cases r c x v v hrv with ⟨hv, ha⟩ | ⟨e', hv, ha⟩
+  unfold Admitted
+  rw [← validate_ok_iff_sat c x _ hwf, ← guard_ok_iff]
+  rcases assign_cases r c x same v v hrv with ⟨hv, hg, ha⟩ | ⟨e', hv, ha⟩ | ⟨hv, hg, ha⟩
+  · rw [ha]; exact ⟨by simp [Outcome.accepted, hv, hg], by simp, by simp⟩
   · rw [ha]
-    exact ⟨by simp [Outcome.accepted, ← validate_ok_iff_sat c x v hwf, hv], by simp, by simp⟩
+    refine ⟨by simp [Outcome.accepted, hv], ?_, by simp⟩
+    intro e he
+    simp only [Outcome.rejected.injEq] at he
+    subst he
+    exact validate_err_kind c x _ _ hwf hv
   · rw [ha]
-    refine ⟨?_, ?_, by simp⟩
-    · have : ¬ Sat c x v := fun hs => by rw [(validate_ok_iff_sat c x v hwf).2 hs] at hv; cases hv
-      simp [Outcome.accepted, this]
-    · intro e he
-      simp only [Outcome.rejected.injEq] at he
-      subst he
-      exact validate_err_kind c x v _ hwf hv
+    refine ⟨by simp [Outcome.accepted, hg], ?_, by simp⟩
+    intro e he
+    simp only [Outcome.rejected.injEq] at he
+    exact Or.inr he.symm
+
+/-- Without a hook and without a constant / read-only declaration this is the
+plain statement: accepted iff the value satisfies the declared constraints. -/
+theorem assign_accepted_iff_sat (r : Route) (c : Cfg) (x : Ctx) (same : Bool) (v : PyVal)
+    (hr : r ≠ .deser) (hwf : WF c) (hh : c.hook = .identity) (hc : c.constant = false) (hro : c.readonly = false) :
+    (assign r c x same v).accepted = true ↔ Sat c x v := by
+  rw [(assign_accepted_iff_admitted r c x same v hr hwf).1]
+  unfold Admitted GuardOk setterValue
+  simp [hh, hc, hro, applyHook]
+
+/-- The hook's output is what is validated and what is stored: a value is never
+installed on the strength of the *input* satisfying the constraints. -/
+theorem hook_output_is_validated (r : Route) (c : Cfg) (x : Ctx) (same : Bool) (v w : PyVal) (t : Target)
+    (hr : r ≠ .deser) (hwf : WF c) (h : assign r c x same v = .stored t w) :
+    Sat c x (setterValue c v) ∧ w = storedValue c (setterValue c v) := by
+  have hrv : routeValue r c v = some v := by cases r <;> simp_all [routeValue]
+  rcases assign_cases r c x same v v hrv with ⟨hv, _, ha⟩ | ⟨e', _, ha⟩ | ⟨_, _, ha⟩
+  · rw [ha] at h
+    simp only [Outcome.stored.injEq] at h
+    exact ⟨(validate_ok_iff_sat c x _ hwf).1 hv, h.2.symm⟩
+  · rw [ha] at h; cases h
+  · rw [ha] at h; cases h
+
+/-- non-vacuity: `Number(bounds=(0, 10), set_hook=lambda o, v: -v)`: −4 is stored as 4, and 4 -- itself
+inside the bounds -- is refused because −4 is not; `Integer(set_hook=lambda o, v: 'x')` refuses everything -/
+example :
+    let c : Cfg := { ptype := .number, hook := .neg,
+                     bounds := some (some (.num .int (.fin 0)), some (.num .int (.fin 10))) }
+    assign .instAttr c {} false (.num .int (.fin (-4))) = .stored .instanceValue (.num .int (.fin 4)) ∧
+    assign .instAttr c {} false (.num .int (.fin 4)) = .rejected .valueError ∧
+    assign .clsAttr { ptype := .integer, hook := .const (.str "x") } {} false (.num .int (.fin 1))
+      = .rejected .valueError := ⟨rfl, rfl, rfl⟩
+
+/-- A constant parameter is validated like any other on the routes that may set it
+(constructor, class attribute, class-level update): an invalid value is refused
+there too, with the validator's error; after initialisation every other object
+is refused with a TypeError -- and an invalid one still with the validator's
+error, because `_validate` runs first. -/
+theorem constant_still_validated (r : Route) (c : Cfg) (x : Ctx) (same : Bool) (v : PyVal)
+    (hr : r ≠ .deser) (hwf : WF c) (hns : ¬ Sat c x (setterValue c v)) :
+    ∃ e, assign r c x same v = .rejected e ∧ validate c x (setterValue c v) = .error e := by
+  have hrv : routeValue r c v = some v := by cases r <;> simp_all [routeValue]
+  rcases assign_cases r c x same v v hrv with ⟨hv, _, _⟩ | ⟨e', hv, ha⟩ | ⟨hv, _, _⟩
+  · exact absurd ((validate_ok_iff_sat c x _ hwf).1 hv) hns
+  · exact ⟨e', ha, hv⟩
+  · exact absurd ((validate_ok_iff_sat c x _ hwf).1 hv) hns
+
+/-- non-vacuity: `Integer(bounds=(0, 5), constant=True)` -/
+example :
+    let c : Cfg := { ptype := .integer, constant := true,
+                     bounds := some (some (.num .int (.fin 0)), some (.num .int (.fin 5))) }
+    assign .ctorKw c {} false (.num .int (.fin 9)) = .rejected .valueError ∧
+    assign .clsUpdate c {} false (.num .int (.fin 9)) = .rejected .valueError ∧
+    assign .ctorKw c {} false (.num .int (.fin 3)) = .stored .instanceValue (.num .int (.fin 3)) ∧
+    assign .clsAttr c {} false (.num .int (.fin 3)) = .stored .classDefault (.num .int (.fin 3)) ∧
+    assign .instAttr c {} false (.num .int (.fin 3)) = .rejected .typeError ∧
+    assign .instAttr c {} true (.num .int (.fin 3)) = .stored .instanceValue (.num .int (.fin 3)) ∧
+    assign .instAttr c {} false (.num .int (.fin 9)) = .rejected .valueError :=
+  ⟨rfl, rfl, rfl, rfl, rfl, rfl, rfl⟩
 
 /-- Deserialisation: the JSON-decoded value goes through the type's `deserialize`
-first; the assignment succeeds exactly when the *deserialised* value satisfies the
-constraints. -/
-theorem assign_deser_accepted_iff (c : Cfg) (x : Ctx) (j : PyVal) (hwf : WF c) :
-    ((assign .deser c x j).accepted = true ↔ ∃ w, deserialize c.ptype j = some w ∧ Sat c x w) ∧
-    (∀ e, assign .deser c x j = .rejected e → e = .valueError ∨ e = .typeError) := by
+first, then through the constructor; the assignment succeeds exactly when the
+*deserialised* value is admitted. -/
+theorem assign_deser_accepted_iff (c : Cfg) (x : Ctx) (same : Bool) (j : PyVal) (hwf : WF c) :
+    ((assign .deser c x same j).accepted = true ↔
+      ∃ w, deserialize c.ptype j = some w ∧ Admitted c x .uninitialised w) ∧
+    (∀ e, assign .deser c x same j = .rejected e → e = .valueError ∨ e = .typeError) := by
   cases hd : deserialize c.ptype j with
   | none => simp [assign, routeValue, hd, Outcome.accepted]
   | some w =>
     have hrv : routeValue .deser c j = some w := by simp [routeValue, hd]
     simp only [Option.some.injEq, exists_eq_left']
-    rcases assign_cases .deser c x j w hrv with ⟨hv, ha⟩ | ⟨e', hv, ha⟩
+    unfold Admitted
+    rw [← validate_ok_iff_sat c x _ hwf, ← guard_ok_iff]
+    rcases assign_cases .deser c x same j w hrv with ⟨hv, hg, ha⟩ | ⟨e', hv, ha⟩ | ⟨hv, hg, ha⟩
     · rw [ha]
-      exact ⟨by simp [Outcome.accepted, ← validate_ok_iff_sat c x w hwf, hv], by simp⟩
+      have hg' : guard c Situation.uninitialised = .ok () := hg
+      exact ⟨by simp [Outcome.accepted, hv, hg'], by simp⟩
+    · rw [ha]
+      refine ⟨by simp [Outcome.accepted, hv], ?_⟩
+      intro e he
+      simp only [Outcome.rejected.injEq] at he
+      subst he
+      exact validate_err_kind c x _ _ hwf hv
     · rw [ha]
       refine ⟨?_, ?_⟩
-      · have : ¬ Sat c x w := fun hs => by rw [(validate_ok_iff_sat c x w hwf).2 hs] at hv; cases hv
-        simp [Outcome.accepted, this]
+      · have hg' : guard c Situation.uninitialised = .error .typeError := hg
+        simp [Outcome.accepted, hg']
       · intro e he
         simp only [Outcome.rejected.injEq] at he
-        subst he
-        exact validate_err_kind c x w _ hwf hv
+        exact Or.inr he.symm
 
 /-- JSON has no tuples: through deserialisation a Tuple-family parameter takes the
 *list* whose items it would take as a tuple directly (and `null` is `None`). -/
 theorem deser_list_is_tuple (c : Cfg) (x : Ctx) (xs : List PyVal)
     (hp : c.ptype = .tuple ∨ c.ptype = .numericTuple ∨ c.ptype = .xy ∨ c.ptype = .range) :
-    (assign .deser c x (.list xs)).accepted = (assign .ctorKw c x (.tuple xs)).accepted ∧
-    (assign .deser c x .none).accepted = (assign .ctorKw c x .none).accepted := by
+    assign .deser c x false (.list xs) = assign .ctorKw c x false (.tuple xs) ∧
+    assign .deser c x false .none = assign .ctorKw c x false .none := by
   unfold assign
-  rcases hp with hp | hp | hp | hp <;> simp only [routeValue, deserialize, hp, PyVal.iter?, Option.map] <;>
-    constructor <;> (split <;> rfl)
+  rcases hp with hp | hp | hp | hp <;> simp [routeValue, deserialize, hp, PyVal.iter?, Route.situation, Route.target]
 
 /-- non-vacuity: `Tuple(length=2)` takes `[1, 2]` from JSON and refuses it as a Python list -/
 example :
     let c : Cfg := { ptype := .tuple, length := 2 }
-    (assign .deser c {} (.list [.num .int (.fin 1), .num .int (.fin 2)])).accepted = true ∧
-    (assign .instAttr c {} (.list [.num .int (.fin 1), .num .int (.fin 2)])).accepted = false := ⟨rfl, rfl⟩
+    (assign .deser c {} false (.list [.num .int (.fin 1), .num .int (.fin 2)])).accepted = true ∧
+    (assign .instAttr c {} false (.list [.num .int (.fin 1), .num .int (.fin 2)])).accepted = false := ⟨rfl, rfl⟩
 
-/-- What an assignment installs satisfied the constraints at that moment: the
-value that reached the setter did, the stored value (that value; `False` for an
-Event) does, and it is stored where the route says (class default for the
-class-attribute route, instance value otherwise). -/
-theorem stored_value_sat (r : Route) (c : Cfg) (x : Ctx) (v w : PyVal) (t : Target) (hwf : WF c)
-    (h : assign r c x v = .stored t w) :
-    t = r.target ∧ ∃ v', routeValue r c v = some v' ∧ Sat c x v' ∧ Sat c x w ∧ (c.ptype ≠ .event → w = v') := by
+/-- What an assignment installs satisfied the constraints at that moment, on every
+route, with any hook, constant or not: the stored value (the hook's output;
+`False` for an Event) satisfies `Sat`, and it is stored where the route says
+(class default for the class-level routes, instance value otherwise). -/
+theorem stored_value_sat (r : Route) (c : Cfg) (x : Ctx) (same : Bool) (v w : PyVal) (t : Target) (hwf : WF c)
+    (h : assign r c x same v = .stored t w) :
+    t = r.target ∧ ∃ v', routeValue r c v = some v' ∧ Sat c x (setterValue c v') ∧ Sat c x w ∧
+      (c.ptype ≠ .event → w = setterValue c v') := by
   cases hrv : routeValue r c v with
   | none => simp [assign, hrv] at h
   | some v' =>
-    rcases assign_cases r c x v v' hrv with ⟨hv, ha⟩ | ⟨e', hv, ha⟩
+    rcases assign_cases r c x same v v' hrv with ⟨hv, _, ha⟩ | ⟨e', _, ha⟩ | ⟨_, _, ha⟩
     · rw [ha] at h
       simp only [Outcome.stored.injEq] at h
       obtain ⟨ht, hw⟩ := h
-      have hs := (validate_ok_iff_sat c x v' hwf).1 hv
+      have hs := (validate_ok_iff_sat c x _ hwf).1 hv
       refine ⟨ht.symm, v', rfl, hs, ?_, ?_⟩
       · subst hw
         unfold storedValue
@@ -350,13 +446,14 @@ theorem stored_value_sat (r : Route) (c : Cfg) (x : Ctx) (v w : PyVal) (t : Targ
         unfold storedValue
         cases hp : c.ptype <;> simp_all
     · rw [ha] at h; cases h
+    · rw [ha] at h; cases h
 
 /-- non-vacuity: an accepted assignment to a bounded Integer, a class-level one, and an Event -/
 example :
-    assign .instAttr { ptype := .integer, bounds := some (some (.num .int (.fin 0)), none) } {} (.num .bool (.fin 1))
+    assign .instAttr { ptype := .integer, bounds := some (some (.num .int (.fin 0)), none) } {} false (.num .bool (.fin 1))
       = .stored .instanceValue (.num .bool (.fin 1)) ∧
-    assign .clsAttr { ptype := .integer } {} (.num .int (.fin 7)) = .stored .classDefault (.num .int (.fin 7)) ∧
-    assign .update { ptype := .event } {} (.num .bool (.fin 1)) = .stored .instanceValue (.num .bool (.fin 0)) :=
+    assign .clsAttr { ptype := .integer } {} false (.num .int (.fin 7)) = .stored .classDefault (.num .int (.fin 7)) ∧
+    assign .update { ptype := .event } {} false (.num .bool (.fin 1)) = .stored .instanceValue (.num .bool (.fin 0)) :=
   ⟨rfl, rfl, rfl⟩
 
 /-! ## constructors: every argument reaches the slot it names -/
@@ -369,9 +466,10 @@ theorem ctor_arg_effective (a : Args) (c : Cfg) (d : PyVal)
     (hmk : mkCfg a = .ok (c, d)) (hwf : WF c) : specCfg a = some c ∧ d = specDefault a :=
   mkCfg_spec a c d hmk hwf
 
-/-- An ill-formed Range declaration (bounds of the wrong type, zero or non-numeric
-`step`, a default of a length other than 2) does not survive its constructor. -/
-theorem ill_formed_range_not_constructed (a : Args) (x : Ctx) (c : Cfg) (d : PyVal)
+/-- An ill-formed declaration (a `step` of the wrong type in the Number family; for a
+Range hard or soft bounds of the wrong type, a zero or non-numeric `step`, a default
+of a length other than 2) does not survive its constructor. -/
+theorem ill_formed_not_constructed (a : Args) (x : Ctx) (c : Cfg) (d : PyVal)
     (hmk : mkCfg a = .ok (c, d)) (hwf : ¬ WF c) : ∃ e, construct a x = .error e := by
   unfold construct
   rw [hmk]
@@ -417,7 +515,7 @@ theorem ctor_ok_iff_default_sat (a : Args) (x : Ctx) :
         | error e =>
           have hs' : ¬ Sat c x d := fun hsat => by rw [hiff.2 hsat] at hv; cases hv
           cases hp : a.ptype <;> simp_all
-    · obtain ⟨e, he⟩ := ill_formed_range_not_constructed a x c d hmk hwf
+    · obtain ⟨e, he⟩ := ill_formed_not_constructed a x c d hmk hwf
       have hs : specCfg a = none := by
         rw [(specCfg_of_mkCfg a c d hmk).1]; simp [Option.filter, hwf]
       unfold CtorSat
